@@ -181,6 +181,8 @@ func TestVerif(t *testing.T){
 
 def run(chk):
     prog, base = setup(chk)
+    from .common import state_shape
+    state_shape(chk, prog)
     fns = sweep.api_functions(prog)
     chk.bounds = ["all %d exported functions/methods, every path of each for symbolic arguments (multi-scalar routines with n = 2 terms)" % len(fns)]
     chk.outside = ["mutation sequences are covered structurally: a result that is fresh and not retained cannot influence package state or later calls"]
